@@ -28,6 +28,26 @@ def run(ck):
     rep = vh(["psetcodec", "edits", "--cases", ed, "--tables", tb, "--seed", ck.seed], timeout=7000, crash=(ck, "C10/crash/signal-in-pset-replay", ""))
     if rep["stats"]:
         ck.add_vh(rep, distinct_key="distinct_cases", panics_only=True)
+    # the case families of the in-memory specifications (merge, script builder and templates / from_script, taproot builder, PSET
+    # views), replayed for panics only: these reach the fallible operations on structured arguments that byte mutation does not build
+    from lib.common import tlc, tlc_must_pass
+    w = ck.work
+    fam, ks = os.path.join(w, "families.ndjson"), os.path.join(w, "keysources.ndjson")
+    tlc_must_pass(tlc("Gen_PsetMerge", "Gen_PsetMerge.cfg", w, env={"GEN_TIER": ck.tier, "OUT": fam, "OUT_KS": ks}, workers=1, timeout=2400, xmx="16g"), "C10 merge gen")
+    seq, num, tpl = (os.path.join(w, x) for x in ("seqs.ndjson", "nums.ndjson", "templates.ndjson"))
+    tlc_must_pass(tlc("Gen_ScriptSpec", "Gen_ScriptSpec.cfg", w, env={"GEN_LEN": 2 if q else 3, "OUT_SEQ": seq, "OUT_NUM": num, "OUT_TPL": tpl}, workers=1, timeout=3000, xmx="24g"), "C10 script gen")
+    tseq, tdeep, thuff = (os.path.join(w, x) for x in ("tapseqs.ndjson", "tapdeep.ndjson", "taphuff.ndjson"))
+    tlc_must_pass(tlc("Gen_Taproot", "Gen_Taproot.cfg", w, env={"GEN_LEN": 4 if q else 5, "GEN_DEPTH": 3, "OUT": tseq, "OUT_DEEP": tdeep, "OUT_HUFF": thuff}, workers=1, timeout=3000, xmx="24g"), "C10 taproot gen")
+    lock, hist = os.path.join(w, "lock.ndjson"), os.path.join(w, "hist.ndjson")
+    tlc_must_pass(tlc("Gen_PsetView", "Gen_PsetView.cfg", w, env={"GEN_STEPS": 2, "OUT_LOCK": lock, "OUT_HIST": hist}, workers=1, timeout=1800, xmx="16g"), "C10 view gen")
+    for args in (["psetmerge", "keysources", "--cases", ks], ["psetmerge", "replay", "--cases", fam, "--tables", tb],
+                 ["script", "templates", "--cases", tpl], ["script", "sequences", "--cases", seq],
+                 ["taproot", "replay", "--cases", tseq], ["taproot", "deep", "--cases", tdeep], ["taproot", "huffman", "--cases", thuff],
+                 ["psetview", "locktime", "--cases", lock], ["psetview", "history", "--cases", hist],
+                 ["psetcodec", "sized", "--cases", _sz, "--tables", tb]):
+        rep = vh(args + ["--seed", ck.seed], timeout=7000, crash=(ck, "C10/crash/signal-in-%s-replay" % args[0], ""))
+        if rep["stats"]:
+            ck.add_vh(rep, distinct_key="distinct_cases", panics_only=True)
     ck.cov["rule"] = ("calls: every Decodable type, the slice parsers (control blocks, merkle branches, Schnorr signatures, commitments, blinding "
                       "factors, pegin witnesses), script iteration / assembly / predicates / from_script, all string parsers (addresses on "
                       "every network, the five blech32 constructors, hex ids, outpoints, blinding factors, sighash types, PSET base64, JSON "
@@ -38,8 +58,10 @@ def run(ck):
                       "blind_last / blind_non_last with absent or arbitrary secrets; degenerate in-memory arguments (blind with no / some / "
                       "all outputs marked x 0..2 secrets x non-standard scripts, zero and u64::MAX values, unblinded addresses, unblind of "
                       "non-confidential outputs, inconsistent PSET bookkeeping, empty / zero-weight Huffman trees); every call under "
-                      "catch_unwind with a counting allocator; distinct = corpus items; plus the mutation neighbourhoods of Wire and "
-                      "PsetCodec")
+                      "catch_unwind with a counting allocator; distinct = corpus items; systematic length blow-ups (every byte position of every corpus "
+                      "item and every PSET pair replaced by each huge CompactSize); plus, for panics only, the case families of Wire, "
+                      "PsetCodec (edits, sized), PsetMerge (families, key sources), ScriptSpec (sequences, templates incl. from_script), "
+                      "Taproot (sequences, depth limit, Huffman) and PsetView (lock times, histories)")
     ck.assumptions += ["sampled inputs, no coverage feedback: absence of panics is explored, not proved",
                        "allocation bound 64 MiB + 256 bytes per input byte (covers MAX_VEC_SIZE and the 10 000-map cap)",
                        "documented panic conditions are not called (legacy / segwit sighash index out of range, insert_input / insert_output "
